@@ -10,7 +10,7 @@ from typing import Any
 
 from sim.choices import Choices
 from sim.engine_d import DOpts
-from sim.oracles import V, check_ledger_unique, check_no_exec_after_result, stale_applications
+from sim.oracles import check_ledger_unique, check_no_exec_after_result
 from sim.programs import Program, gen_program
 
 from .common import (absorb, compare_outcome, new_outcome, run_exec, sample_of, swarm_knobs, swarm_opts,
@@ -53,28 +53,18 @@ def judge(prog: Program, ref: dict[str, Any], run: dict[str, Any]) -> list[dict[
     else:
         for c, m in compare_outcome(prog, ref, run):
             problems.append((c.split(":")[0], m, c))
-        if run["fs"]["queue"] or run["fs"]["dlq"]:
-            problems.append(("stranded-messages", f"queue={run['fs']['queue']} dlq={run['fs']['dlq']}", "stranded"))
     for x in check_ledger_unique(run["h"], "C02"):
         problems.append(("step-executed-twice", x["msg"], x["sig"].split(":", 1)[1]))
     for x in check_no_exec_after_result(run["h"], "C02"):
         problems.append(("executed-after-result", x["msg"], "exec-after-result"))
     for k, n in plan_counts(run["h"], prog):
         problems.append(("stage-started-twice", f"stage {k} was planned/started {n} times in one iteration", "planned-twice"))
-    if run["errors"]:
-        problems.append(("handler-error", f"handler raised: {run['errors'][:3]}", "handler-error:" + run["errors"][0].split(":")[0].split("#")[0]))
-    if not problems:
-        return []
-    cls = problems[0][0]
-    sig = "C02:" + problems[0][2]
-    st = stale_applications(run["h"])
-    if st:
-        x = st[0]
-        sig = f"C02:stale-{x['handler']}-applied-after-rearm:{x['kind']}:{x['old']}->{x['new']}"
-        problems.append(("diagnosis", f"a {x['handler']} message queued before stage {x['stage']} was re-armed changed its "
-                                      f"{x['kind']} {x['old']}->{x['new']} afterwards", ""))
-    msg = " || ".join(f"{c}: {m}" for c, m, _ in problems)
-    return [V("C02", cls, msg, sig=sig, classes=[c for c, _, _ in problems])]
+    # a handler that raised, or a message that ended in the dead-letter queue, is not by itself a C02 violation
+    # (e.g. ContinueParentStage for a parent that a halt canceled meanwhile is rejected by the state machine and
+    # dead-lettered, the outcome is unchanged); both are counted as probes in run_one
+    from .dflow import one_violation
+
+    return one_violation("C02", problems, run["h"], ref["h"])
 
 
 def _flow(ch: Choices, tier: str) -> tuple[Program, Any, Any, dict[str, Any], dict[str, Any]]:
@@ -107,6 +97,8 @@ def run_one(seed: int, tier: str) -> dict[str, Any]:
     out["samples"].append(sample_of(prog, ch.trace, {"opts": opts.__dict__, "deliveries": run["res"].deliveries[:30]}))
     for f in prog.features():
         out["stats"]["feature:" + f] = 1
+    out["stats"]["runs_with_handler_errors"] = 1 if run["errors"] else 0
+    out["stats"]["runs_with_dead_letters"] = 1 if run["fs"]["dlq"] else 0
     out["stats"]["redelivered_messages"] = sum(1 for n in run["handler_calls"].values() if n > 1)
     return out
 
